@@ -56,6 +56,12 @@ def sharing_doc(rng):
     if g.opt["nested_svg"]:
         body.append(g.nested_svg(1))
     root = g.document(body_nodes=body)
+    if r.random() < 0.2:
+        # no viewBox: the document size (and everything derived from it) comes from width/height
+        del root.attrs["viewBox"]
+        root.attrs["width"] = "100"
+        root.attrs["height"] = "100"
+        g.f["root_without_viewbox"] += 1
     gd.sanitize_redundant_explicit(root)
     g.f["sharing_docs"] += 1
     return gd.to_xml(root), g.f, root
@@ -113,7 +119,7 @@ class D(Driver):
         if refs["orphans"]:
             mech = None
             try:
-                if stage.get("before") and stage["before"] != stage["after"] and not xmlcanon.references(stage["before"])["orphans"]:
+                if stage.get("before") and stage["before"] != stage["after"] and not stage.get("stroke_junk") and not xmlcanon.references(stage["before"])["orphans"]:
                     mech = "gradient-orphaned-by-late-pruning"
             except Exception:
                 pass
